@@ -23,7 +23,11 @@ RULE = ("seeded generator of BMS texts: each of the five shipped layouts; header
         "filled and unfilled, ASCII and shift_jis text), WAV and extended-BPM tables, LNOBJ; note objects per lane at "
         "measure fractions with subdivisions 1..192 (boundary-biased: 1,2,3,4,...,96,97,99,101,128,192), several lines "
         "per measure+channel (overlay), ignored channels, integer (03) and extended (08) tempo objects anywhere in a "
-        "measure incl. measure 0 position 0, lines in time order or shuffled; a case is non-trivial when it has >= 2 data "
+        "measure incl. measure 0 position 0, lines in time order or shuffled; about a third of the texts carry MIXED-CASE ids (WAV ids, "
+        "#BPMxx ids, LNOBJ, data pairs) including ids that differ only in letter case (#WAV0a next to #WAV0A, #BPM0t / #BPM0T on channel 08, "
+        "#LNOBJ zz with a playable #WAVZZ) -- judged as case kind CReadIds (wf_bms_lines_ids: outside the theorems' domain when a table key "
+        "holds a lower-case id, still compared with the model and with the oracle); a quarter of the cases go through BMSMap.read_file from "
+        "a shift_jis temp file instead of BMSMap.read; a case is non-trivial when it has >= 2 data "
         "lines with objects; distinct by hash of the canonical JSON of the input")
 ASSUMPTIONS = [
     "shift_jis codec is an oracle: the model works on decoded lines; the harness decodes the implementation's bytes and "
@@ -134,16 +138,39 @@ def gen_text(rng, lname):
     wild = rng.random() < 0.2                      # tempo objects at arbitrary subdivisions (pairwise off-grid possible)
     M = rng.choice([1, 2, 3, 4, 4, 8, 8, 50, 999])
     hdr = []
-    # --- tables
+    # --- tables.  mixed: ids are exact byte strings -- letters in either case, and ids that differ ONLY in case
+    mixed = rng.random() < 0.35
+
+    def mc(s):
+        return "".join(c.lower() if (mixed and c.isalpha() and rng.random() < 0.5) else c for c in s)
+
+    def letter_id():
+        while True:
+            i = b36(rng.randint(10, 1295))
+            if any(c.isalpha() for c in i):
+                return i
+
     lnobj = rng.choice([None, None, "ZZ", "ZZ", b36(rng.randint(1, 1295))])
+    if lnobj and mixed:
+        lnobj = rng.choice([lnobj, lnobj.lower(), mc(lnobj)])
     ids = rng.sample(range(1, 60), rng.choice([0, 1, 3, 6])) + rng.sample(range(60, 1296), rng.choice([0, 1]))
-    wav_ids = [b36(i) for i in ids if b36(i) != lnobj]
+    wav_ids = [mc(b36(i)) for i in ids]
+    if mixed and rng.random() < 0.6:                     # a pair of sample ids differing only in case
+        base = letter_id()
+        wav_ids += [base, base.lower()]
+    if mixed and lnobj and lnobj.swapcase() != lnobj and rng.random() < 0.5:
+        wav_ids.append(lnobj.swapcase())                 # a playable id that differs from LNOBJ only in case
+    wav_ids = [w for w in dict.fromkeys(wav_ids) if w != lnobj and w != "00"]
     for w in wav_ids:
         hdr.append(f"#WAV{w} {rng.choice(['kick', 'snare 01', 'a_b', 'hat'])}{rng.randint(0, 99)}.wav")
-    note_ids = wav_ids + [b36(i) for i in rng.sample(range(1, 1296), 2) if b36(i) != lnobj]
+    note_ids = wav_ids + [x for x in (mc(b36(i)) for i in rng.sample(range(1, 1296), 2)) if x != lnobj and x != "00"]
     ex = {}
     for i in rng.sample(range(1, 1296), rng.choice([0, 0, 1, 2, 3])):
-        ex[b36(i)] = _bpm_text(rng)
+        ex[mc(b36(i))] = _bpm_text(rng)
+    if mixed and rng.random() < 0.5:                     # a pair of tempo ids differing only in case
+        base = letter_id()
+        ex[base] = _bpm_text(rng)
+        ex[base.lower()] = _bpm_text(rng)
     for k, v in ex.items():
         hdr.append(f"#BPM{k} {v}")
     if lnobj:
@@ -231,7 +258,9 @@ def generate(rng, tier):
     cases = []
     for i in range(n):
         lname = LAYOUTS[i % 5] if i < 50 else rng.choice(LAYOUTS)
-        cases.append({"layout": lname, "exact": rng.random() < 0.7, "lines": gen_text(rng, lname)})
+        exact = rng.random() < 0.7
+        lines = gen_text(rng, lname)
+        cases.append({"layout": lname, "exact": exact, "lines": lines, "via_file": rng.random() < 0.25})
     return cases
 
 
@@ -266,7 +295,17 @@ def execute(case):
             RAConst.MIN_TO_MSEC = Fr(60000)
             mod.__dict__["float"] = _exact_float
         try:
-            m = BMSMap.read(list(case["lines"]), _layout(case["layout"]))
+            if case.get("via_file"):
+                # BMSMap.read_file: the same text from a shift_jis file (codecs reader + strip), layout forwarded
+                import os
+                import tempfile
+                with tempfile.TemporaryDirectory() as td:
+                    path = os.path.join(td, "chart.bms")
+                    with open(path, "wb") as f:
+                        f.write("\n".join(case["lines"]).encode("shift_jis"))
+                    m = BMSMap.read_file(path, _layout(case["layout"]))
+            else:
+                m = BMSMap.read(list(case["lines"]), _layout(case["layout"]))
         except (ValueError, KeyError, IndexError, ZeroDivisionError) as e:
             return {"v": None, "exc": type(e).__name__ + ": " + str(e)[:100]}
         except Exception as e:
@@ -337,7 +376,17 @@ def emit(case, out):
         meta = (f"(mkMeta {coq_text(v['title'])} {coq_text(v['artist'])} {coq_text(v['version'])} {coq_text(v['lnobj'])} "
                 f"{ex} {smp} {misc} 0)")
         o = f"(Some (mkChart {hits} {holds} {bpms} {meta}))"
-    return f"CRead {tol} {ix}%nat {coq_texts(case['lines'])} {o}"
+    return f"{'CReadIds' if _lower_ids(case) else 'CRead'} {tol} {ix}%nat {coq_texts(case['lines'])} {o}"
+
+
+def _lower_ids(case):
+    """some '#WAVxx' / '#BPMxx' key carries a lower-case id: outside wf_bms_lines (upper-case keys), inside wf_bms_lines_ids"""
+    for raw in case["lines"]:
+        l = raw.strip()
+        k = l.split(" ", 1)[0]
+        if len(k) == 6 and k[:4] in ("#WAV", "#BPM") and any(c.islower() for c in k[4:]):
+            return True
+    return False
 
 
 # ------------------------------------------------------------------ reading of a text for bookkeeping / classification
@@ -415,6 +464,8 @@ def bucket(case, out):
     k = case["layout"] + ("" if case["exact"] else "-rounded")
     k += "/tempo=%d" % min(3, len([o for o in objs if o[2] in ("03", "08")]))
     k += "/ln" if any(l.strip().startswith("#LNOBJ") for l in case["lines"]) else ""
+    k += "/ids" if _lower_ids(case) else ""
+    k += "/file" if case.get("via_file") else ""
     if out.get("v") is None:
         k += "/exc"
     return k
